@@ -276,6 +276,54 @@ FLIP_MEASURED = 1.3e-3      # worst operator (maxwell.electric_field) at orders 
 FLIP_BOUND = 2.0e-2
 
 
+def far_translation_block(api, strength, out):
+    """Deterministic in every check: a fixed small closed mesh translated by |T| in {1e3, 1e5} x diameter.  The geometry is
+    computed from vertex differences, so normals / volumes / integration elements and the operators that use normals
+    (Laplace K, K', W) lose accuracy only like eps*|T|/h (rounding of the translated coordinates); the tolerance is
+    FAR_C * eps * |T| / h.  A formulation on absolute coordinates loses eps*|T|^2/h^2 and fails."""
+    quick = strength == "quick"
+    eps = np.finfo(float).eps
+    fixed = np.random.default_rng(20260924)            # geometry independent of VERIF_SEED
+    # non-dyadic coordinates, so that the translated coordinates are genuinely rounded
+    verts = (np.array(C.OCTA_V, dtype=float).T + fixed.integers(-2, 3, size=(3, 6)) / 32.0) * 0.9137 + 0.0123
+    els = np.array(C.OCTA_E, dtype="uint32").T.copy()
+    grid0 = api.Grid(np.ascontiguousarray(verts), els.copy())
+    diam = float(np.linalg.norm(verts.max(axis=1) - verts.min(axis=1)))
+    h = float(grid0.diameters.min()) if hasattr(grid0, "diameters") else 1.0
+    direction = np.array([3.0, -2.0, 1.0]) / np.linalg.norm([3.0, -2.0, 1.0])
+    b = api.operators.boundary
+    ops = [("laplace.double_layer", lambda d, t: b.laplace.double_layer(d, d, t, assembler="dense"), "P1", "DP0"),
+           ("laplace.adjoint_double_layer", lambda d, t: b.laplace.adjoint_double_layer(d, d, t, assembler="dense"), "DP0", "P1"),
+           ("laplace.hypersingular", lambda d, t: b.laplace.hypersingular(d, d, t, assembler="dense"), "P1", "P1")]
+    C.set_orders(3, 3)
+    with C.Patched(None, jit=not quick), np.errstate(all="ignore"):
+        base = {name: dense(mk(C.make_space(grid0, dk, {}), C.make_space(grid0, tk, {}))) for name, mk, dk, tk in ops}
+        for factor in (1e3, 1e5):
+            tvec = factor * diam * direction
+            tol = FAR_C * eps * float(np.linalg.norm(tvec)) / h
+            g1 = api.Grid(np.ascontiguousarray(verts + tvec[:, None]), els.copy())
+            geo = {"grid.normals": float(np.abs(g1.normals - grid0.normals).max()),
+                   "grid.volumes": float(np.abs(g1.volumes / grid0.volumes - 1).max()),
+                   "grid.integration_elements": float(np.abs(g1.integration_elements / grid0.integration_elements - 1).max()),
+                   "grid.diameters": float(np.abs(g1.diameters / grid0.diameters - 1).max())}
+            errs = dict(geo)
+            for name, mk, dk, tk in ops:
+                a1 = dense(mk(C.make_space(g1, dk, {}), C.make_space(g1, tk, {})))
+                errs[name] = float(np.abs(a1 - base[name]).max()) / float(np.abs(base[name]).max())
+            for key, err in errs.items():
+                out["worst"]["far_translation_%g:%s" % (factor, key)] = err / tol      # in units of the tolerance
+                out["evaluations"] += 1
+                if not err <= tol:
+                    out["failures"].append({
+                        "signature": "C03:translation invariance far from the origin: %s" % key,
+                        "what": "|T| = %g x diameter: %s changes by %.3e, tolerance %g*eps*|T|/h = %.3e" % (
+                            factor, key, err, FAR_C, tol),
+                        "data": {"block": "far_translation", "factor": factor, "quantity": key, "err": err, "tol": tol}})
+
+
+FAR_C = 1.0e3
+
+
 def barycentric_block(api, rng, strength, out):
     """Element renumbering / local rotation equivariance for operators whose spaces use barycentric_representation /
     dof_transformation: identity RWG(segment)->BC, SNC(segment)->RBC, P1(segment)->DUAL0 / DUAL1 (thorough: EFIE with RBC test
@@ -487,6 +535,7 @@ def run_search(cfg):
                                   "what": "%s on %s with %s/%s" % (msg, gname, tk, dk),
                                   "data": {"grid": gname, "dom": [dk, opts_d], "dual": [tk, opts_t], "errs": errs}})
     flip_block(api, strength, out)
+    far_translation_block(api, strength, out)
     with C.PyFuncMode(strength == "quick"):
         barycentric_block(api, rng, strength, out)
     out["wall"] = time.time() - t0
